@@ -131,6 +131,7 @@ class TDS(BaseRoutine):
         self.from_csv = None
         self.data_csv = None
         self.k_csv = 0    # row number
+        self._t_next = None  # exact time to land on when a step is cut at the end time or an event
 
         # to be computed
         self.deltat = 0
@@ -326,7 +327,7 @@ class TDS(BaseRoutine):
         dae = system.dae
 
         self.calc_h(resume=True)
-        dae.t += self.h
+        self._advance_time()
 
         logger.debug("Resuming simulation: initial step size is h=%.4fs.", self.h)
         logger.debug("Resuming from t=%.4fs.", system.dae.t)
@@ -438,7 +439,7 @@ class TDS(BaseRoutine):
                 # check if the next step is critical time
                 self.do_switch()
                 self.calc_h()
-                dae.t += self.h
+                self._advance_time()
                 dae.kcount += 1
 
                 logger.debug("Next time step advanced to t=%g", dae.t)
@@ -482,7 +483,7 @@ class TDS(BaseRoutine):
                     self.busted = True
                     break
 
-                dae.t += self.h
+                self._advance_time()
 
         if self.busted:
             logger.error(self.err_msg)
@@ -619,24 +620,44 @@ class TDS(BaseRoutine):
 
         self.h = self.deltat
 
+        # the exact time to land on when the step is cut at one; `t + (t_cut - t)` may be off by rounding
+        self._t_next = None
+
         # do not skip over the end time
-        self.h = max(min(self.h, config.tf - system.dae.t), 0)
+        if self.h >= config.tf - system.dae.t:
+            self.h = max(config.tf - system.dae.t, 0)
+            if self.h > 0:
+                self._t_next = config.tf
 
         # do not skip over event switch_times
         if self._switch_idx < system.n_switches:
             if (system.dae.t + self.h) > system.switch_times[self._switch_idx]:
                 self.h = system.switch_times[self._switch_idx] - system.dae.t
+                self._t_next = system.switch_times[self._switch_idx]
 
         if self.data_csv is not None:
             if self.k_csv + 1 < self.data_csv.shape[0]:
                 self.k_csv += 1
                 self.h = self.data_csv[self.k_csv, 0] - system.dae.t
+                self._t_next = self.data_csv[self.k_csv, 0]
             else:
                 self.h = 0
+                self._t_next = None
 
         logger.debug("Calculated TDS.h = %g", self.h)
 
         return self.h
+
+    def _advance_time(self):
+        """
+        Advance the simulation time by ``self.h``, landing exactly on the time
+        the step was cut at (end time, event time, replayed time stamp), if any.
+        """
+        dae = self.system.dae
+        if self._t_next is not None:
+            dae.t[...] = self._t_next
+        else:
+            dae.t += self.h
 
     def _calc_h_first(self):
         """
